@@ -239,8 +239,11 @@ fn emit_switch_conditional(
     let mut branch_bodies: Vec<EmittedContainer> = Vec::new();
     for (branch_index, (_, body_nodes)) in branches.iter().enumerate() {
         let branch_array_index = switch_index + preamble_len + branch_index;
-        let branch_scope =
+        let mut branch_scope =
             scope.conditional_branch(&format!("{branch_array_index}.b"));
+        // The "pop" put in front of the body below moves everything in it up by one:
+        // a sequence or conditional inside must build its paths with that index.
+        branch_scope.param_offset = 1;
         let mut body = emit_nodes(body_nodes, &branch_scope, context)?;
         body.push(json!({"->": exit_target}));
         branch_bodies.push(body);
